@@ -226,18 +226,19 @@ Qed.
 
 Lemma handle_payload_ok c path v c' :
   handle_payload c path v = COk c' ->
-  (py_truth v = false /\ c' = c) \/
+  ((v = VNone \/ v = VDict []) /\ c' = c) \/
   (exists d c1, v = VDict d /\ d <> [] /\ update c d = COk c1 /\ c' = with_loaded c1 path).
 Proof.
-  unfold handle_payload. destruct (py_truth v) eqn:T.
-  - destruct v; try discriminate. intros H. apply cbind_ok in H as (c1 & U & E).
-    inversion E; subst. right. exists l, c1. repeat split; auto.
-    intros ->. discriminate.
+  unfold handle_payload. destruct v; try discriminate.
   - intros H; inversion H; subst. left; auto.
+  - destruct l as [|kv r].
+    + simpl. intros H; inversion H; subst. left; auto.
+    + cbn [py_truth is_nil negb]. intros H. apply cbind_ok in H as (c1 & U & E).
+      inversion E; subst. right. exists (kv :: r), c1. repeat split; auto. discriminate.
 Qed.
 
-Lemma falsy_says_nothing k v : py_truth v = false -> file_sets k v = None.
-Proof. destruct v; simpl; try reflexivity. destruct l; [reflexivity|discriminate]. Qed.
+Lemma empty_says_nothing k v : v = VNone \/ v = VDict [] -> file_sets k v = None.
+Proof. intros [->| ->]; reflexivity. Qed.
 
 (** one file, one scalar *)
 Lemma handle_payload_scalar s c path v c' :
@@ -246,7 +247,7 @@ Lemma handle_payload_scalar s c path v c' :
   setting s c' = or_else (file_sets (VStr s) v) (setting s c).
 Proof.
   intros Hs H. apply handle_payload_ok in H as [[T ->]|(d & c1 & -> & _ & U & ->)].
-  - rewrite falsy_says_nothing by exact T. reflexivity.
+  - rewrite empty_says_nothing by exact T. reflexivity.
   - apply update_ok in U as (_ & sh & vs & _ & _ & ->).
     unfold setting; simpl. apply sm_get_update_scalars. exact Hs.
 Qed.
@@ -270,7 +271,7 @@ Lemma handle_payload_vars k c path v c' :
   dict_get k (c_vars c') = or_else (file_sets_in "vars" k v) (dict_get k (c_vars c)).
 Proof.
   intros H. apply handle_payload_ok in H as [[T ->]|(d & c1 & -> & _ & U & ->)].
-  - unfold file_sets_in. rewrite falsy_says_nothing by exact T. reflexivity.
+  - unfold file_sets_in. rewrite empty_says_nothing by exact T. reflexivity.
   - apply update_ok in U as (_ & sh & vs & _ & V & ->). simpl.
     rewrite (update_dict_prop_get _ _ _ k V). unfold file_sets_in; simpl.
     destruct (dict_get (VStr "vars") d) as [[]|]; reflexivity.
@@ -281,7 +282,7 @@ Lemma handle_payload_shortcuts k c path v c' :
   dict_get k (c_shortcuts c') = or_else (file_sets_in "shortcuts" k v) (dict_get k (c_shortcuts c)).
 Proof.
   intros H. apply handle_payload_ok in H as [[T ->]|(d & c1 & -> & _ & U & ->)].
-  - unfold file_sets_in. rewrite falsy_says_nothing by exact T. reflexivity.
+  - unfold file_sets_in. rewrite empty_says_nothing by exact T. reflexivity.
   - apply update_ok in U as (_ & sh & vs & S & _ & ->). simpl.
     rewrite (update_dict_prop_get _ _ _ k S). unfold file_sets_in; simpl.
     destruct (dict_get (VStr "shortcuts") d) as [[]|]; reflexivity.
@@ -467,7 +468,7 @@ Lemma handle_payload_unknown c path d :
 Proof.
   intros H. destruct (update_unknown c d H) as [U N]. split; [|split; [exact N|apply unknown_keys_spec]].
   unfold handle_payload. destruct H as (k & Hk & _).
-  destruct d as [|kv r]; [contradiction|]. simpl py_truth. simpl. rewrite U. reflexivity.
+  destruct d as [|kv r]; [contradiction|]. cbn [py_truth is_nil negb]. rewrite U. reflexivity.
 Qed.
 
 Lemma init_unknown_rejected e fs c path d k :
@@ -481,24 +482,21 @@ Proof.
 Qed.
 
 (** ** non-mapping payloads *)
-Lemma handle_payload_truthy_nonmapping c path v :
-  py_truth v = true -> is_mapping v = false -> handle_payload c path v = CErr (ENotMapping path).
+Lemma handle_payload_nonmapping c path v :
+  is_mapping v = false -> v <> VNone -> handle_payload c path v = CErr (ENotMapping path).
 Proof.
-  unfold handle_payload. intros -> M. destruct v; try reflexivity. discriminate.
+  unfold handle_payload. intros M N. destruct v; try reflexivity; [congruence|discriminate].
 Qed.
 
-Lemma init_truthy_nonmapping_rejected e fs c path v :
+Lemma init_nonmapping_rejected e fs c path v :
   skip_requested e = false ->
-  In (path, v) (precedence e fs) -> py_truth v = true -> is_mapping v = false ->
+  In (path, v) (precedence e fs) -> is_mapping v = false -> v <> VNone ->
   forall c', init e fs c <> COk c'.
 Proof.
-  intros S Hin T M c' H.
+  intros S Hin M N c' H.
   destruct (init_all_handled _ _ _ _ S H _ _ Hin) as (c1 & c2 & Hh).
-  rewrite handle_payload_truthy_nonmapping in Hh by assumption. discriminate.
+  rewrite handle_payload_nonmapping in Hh by assumption. discriminate.
 Qed.
-
-Lemma handle_payload_falsy c path v : py_truth v = false -> handle_payload c path v = COk c.
-Proof. unfold handle_payload. intros ->. reflexivity. Qed.
 
 (** ** $PYPYR_CONFIG_GLOBAL *)
 Lemma init_global_must_exist e fs c g :
